@@ -63,6 +63,18 @@ static struct ls_call *ls_value(int fn, long s, long e)
     return c;
 }
 
+/* fn was consulted at least once and only ever on the range [s,e) (repeated calls are harmless: the stubs are functions) */
+static int ls_only(int fn, long s, long e)
+{
+    int seen = 0;
+    for (int i = 0; i < ls_n; i++)
+        if (ls_calls[i].fn == fn) {
+            if (ls_calls[i].s != s || ls_calls[i].e != e) return 0;
+            seen = 1;
+        }
+    return seen && ls_count[fn] >= 1;
+}
+
 static int ls_call(int fn, const char *start, const char *end)
 {
     long s = start - ls_base, e = end - ls_base;
